@@ -38,6 +38,8 @@ func init() {
 		{Name: "delegated-helper-with-the-same-shape", Silent: true, Edits: []Edit{
 			{"pingreq.go", "\tb := make([]byte, p.width())\n\tp.fill(b, 0)\n\tn, err := w.Write(b)\n\treturn int64(n), err", "\treturn writeAllX(w, p)"},
 			{"pingreq.go", "func NewPingReq() *PingReq {", "type fillerX interface{ fill([]byte, int) int }\n\nfunc writeAllX(w io.Writer, p fillerX) (int64, error) {\n\tb := make([]byte, p.fill(_LEN, 0))\n\tp.fill(b, 0)\n\tn, err := w.Write(b)\n\treturn int64(n), err\n}\n\nfunc NewPingReq() *PingReq {"}}},
+		{Name: "undefined-reports-a-byte", Rule: "R10.5", Where: "(*Undefined).WriteTo", Edits: []Edit{{"undefined.go", "\treturn 0, fmt.Errorf(\"cannot write %T\", p)", "\treturn 1, fmt.Errorf(\"cannot write %T\", p)"}}},
+		{Name: "raw-payload-never-copied", Rule: "R10.2", Where: "(rawdata).fill#writes", Edits: []Edit{{"wiretypes.go", "\tif len(data) >= i+v.width() {\n\t\treturn copy(data[i:], []byte(v))\n\t}\n\treturn v.width()", "\treturn v.width()"}}},
 		{Name: "explicit-error-branch", Silent: true, Edits: []Edit{{"pingreq.go", "\tn, err := w.Write(b)\n\treturn int64(n), err", "\tn, err := w.Write(b)\n\tif err != nil {\n\t\treturn int64(n), err\n\t}\n\treturn int64(n), nil"}}},
 		{Name: "dry-run-hoisted-into-local", Silent: true, Edits: []Edit{{"connack.go", "\tb := make([]byte, p.fill(_LEN, 0))\n\tp.fill(b, 0)\n\tn, err := w.Write(b)", "\tsize := p.fill(_LEN, 0)\n\tb := make([]byte, size)\n\tp.fill(b, 0)\n\tn, err := w.Write(b)"}}},
 	}})
@@ -213,6 +215,10 @@ func checkWriteTo(p *Prog, c *Check, fn *ssa.Function) (*ssa.Function, bool) {
 			if !pr.NonNil(ret.Results[1], b, 0) {
 				ok = false
 				c.Bad("R10.5", cons, posOf(p, ret), "a WriteTo that never writes returns a nil error: the caller believes a frame was sent")
+			}
+			if k, isC := constInt(ret.Results[0]); !isC || k != 0 {
+				ok = false
+				c.Bad("R10.5", cons, posOf(p, ret), "a WriteTo that never writes reports a byte count other than 0: "+describeVal(ret.Results[0]))
 			}
 		}
 		if otherUse != "" {
@@ -677,6 +683,12 @@ func checkThreadingSyntactic(p *Prog, c *Check, fn *ssa.Function) {
 			} else {
 				c.Bad("R10.2", rcs, posOf(p, ret), how)
 			}
+		}
+	}
+	// a wire primitive that reports a width must write it
+	if len(ems) == 0 && !writesBufferDirectly(fn, buf) && isWirePrimitive(fn) {
+		if rs := p.retSummary(fn); !(rs.exact != nil && rs.exact.isConst() && rs.exact.c == 0) && !p.alwaysPanics(fn) {
+			c.Bad("R10.2", cons+"#writes", p.Pos(fn.Pos()), "the primitive reports a width but never writes into the buffer: those bytes of the frame stay zero")
 		}
 	}
 	_ = bad
@@ -1637,4 +1649,14 @@ func checkWriteToDelegated(p *Prog, c *Check, fn *ssa.Function, w *ssa.Parameter
 func valueOf(i ssa.Instruction) ssa.Value {
 	v, _ := i.(ssa.Value)
 	return v
+}
+
+// alwaysPanics: fn has no return (every path ends in a panic).
+func (p *Prog) alwaysPanics(fn *ssa.Function) bool {
+	for _, b := range fn.Blocks {
+		if _, ok := terminator(b).(*ssa.Return); ok {
+			return false
+		}
+	}
+	return true
 }
